@@ -1041,7 +1041,18 @@ fn emit_item(ctx: &mut Ctx, file: &str, name: &str, opts: &BTreeMap<String, Stri
         // integer constant expressions are folded (Verus rejects `/` in dual-mode consts); the original
         // expression is kept in a comment and in the report
         let is_lit = matches!(&*c.expr, syn::Expr::Lit(_));
-        if let Some(v) = const_eval(&c.expr, &ctx.consts) {
+        // `Address::new_id(<const int>)` is folded to the stub's struct literal (exec fn calls are not allowed in dual-mode consts)
+        let mut addr_fold: Option<i128> = None;
+        if let syn::Expr::Call(call) = &*c.expr {
+            if call.func.to_token_stream().to_string().replace(' ', "") == "Address::new_id" && call.args.len() == 1 {
+                addr_fold = const_eval(&call.args[0], &ctx.consts);
+            }
+        }
+        if let Some(v) = addr_fold {
+            folded = Some((c.expr.to_token_stream().to_string(), v));
+            let lit = syn::LitInt::new(&v.to_string(), proc_macro2::Span::call_site());
+            *c.expr = syn::parse_quote!(Address { id: #lit, proto: 0 });
+        } else if let Some(v) = const_eval(&c.expr, &ctx.consts) {
             ctx.consts.insert(c.ident.to_string(), v);
             if !is_lit {
                 folded = Some((c.expr.to_token_stream().to_string(), v));
@@ -1073,22 +1084,10 @@ fn emit_item(ctx: &mut Ctx, file: &str, name: &str, opts: &BTreeMap<String, Stri
     ));
 }
 
-fn main() {
-    let args: Vec<String> = std::env::args().collect();
-    if args.len() < 6 {
-        eprintln!("usage: vx <template> <repo-root> <verif-root> <out.rs> <out.json> [--vacuity]");
-        std::process::exit(2);
+fn process_text(ctx: &mut Ctx, tpl: &str, out: &mut String, depth: usize) {
+    if depth > 4 {
+        die("include depth exceeded");
     }
-    let tpl = std::fs::read_to_string(&args[1]).unwrap_or_else(|_| die("cannot read template"));
-    let mut ctx = Ctx {
-        repo: args[2].clone(),
-        verif: args[3].clone(),
-        vacuity: args.iter().any(|a| a == "--vacuity"),
-        consts: BTreeMap::new(),
-        files: BTreeMap::new(),
-        report: vec![],
-    };
-    let mut out = String::new();
     let lines: Vec<&str> = tpl.lines().collect();
     let mut i = 0;
     while i < lines.len() {
@@ -1105,8 +1104,8 @@ fn main() {
                     let p = format!("{}/{}", ctx.verif, words[1]);
                     let s = std::fs::read_to_string(&p).unwrap_or_else(|_| die(&format!("cannot read include {}", p)));
                     let _ = writeln!(out, "//vx-begin include {}", words[1]);
-                    out.push_str(&s);
-                    if !s.ends_with('\n') {
+                    process_text(ctx, &s, out, depth + 1);
+                    if !out.ends_with('\n') {
                         out.push('\n');
                     }
                     let _ = writeln!(out, "//vx-end include {}", words[1]);
@@ -1122,7 +1121,7 @@ fn main() {
                             opts.insert(w.to_string(), String::new());
                         }
                     }
-                    emit_item(&mut ctx, &words[1], &words[2], &opts, &mut out);
+                    emit_item(ctx, &words[1], &words[2], &opts, out);
                     i += 1;
                 }
                 "fn" => {
@@ -1205,7 +1204,7 @@ fn main() {
                     if !closed {
                         die(&format!("line {}: fn block not closed with //@ end", d.line));
                     }
-                    emit_fn(&mut ctx, &d, &mut out);
+                    emit_fn(ctx, &d, out);
                 }
                 other => die(&format!("line {}: unknown directive {}", i + 1, other)),
             }
@@ -1215,6 +1214,25 @@ fn main() {
             i += 1;
         }
     }
+}
+
+fn main() {
+    let args: Vec<String> = std::env::args().collect();
+    if args.len() < 6 {
+        eprintln!("usage: vx <template> <repo-root> <verif-root> <out.rs> <out.json> [--vacuity]");
+        std::process::exit(2);
+    }
+    let tpl = std::fs::read_to_string(&args[1]).unwrap_or_else(|_| die("cannot read template"));
+    let mut ctx = Ctx {
+        repo: args[2].clone(),
+        verif: args[3].clone(),
+        vacuity: args.iter().any(|a| a == "--vacuity"),
+        consts: BTreeMap::new(),
+        files: BTreeMap::new(),
+        report: vec![],
+    };
+    let mut out = String::new();
+    process_text(&mut ctx, &tpl, &mut out, 0);
     std::fs::write(&args[4], &out).unwrap_or_else(|_| die("cannot write output"));
     let rep = format!("{{\"template\":{},\"items\":[\n{}\n]}}\n", json_str(&args[1]), ctx.report.join(",\n"));
     std::fs::write(&args[5], rep).unwrap_or_else(|_| die("cannot write report"));
